@@ -14,8 +14,9 @@ import sys
 
 sys.path.insert(0, os.path.join(os.path.dirname(os.path.dirname(os.path.abspath(__file__))), "tools"))
 import vlib  # noqa: E402
-import random  # noqa: E402
-import threading  # noqa: E402
+
+sys.path.insert(0, os.path.dirname(os.path.abspath(__file__)))
+import tncommon  # noqa: E402
 
 LEVEL = "model_checking"
 
@@ -25,60 +26,6 @@ RUNS = [
     ("C13_sim", ("simulate", 30, 1500, 2), ("simulate", 500, 30000, 2)),
     ("C13_d2", None, ("bfs", None, None, 1)),
 ]
-
-
-def generate_all(ctx, jobs, spec="Mutex"):
-    """Run the TLC jobs (cfg, mode, num) concurrently (the JVM start-up dominates on a busy
-    machine); returns {cfg: TlcResult}. Raises Inconclusive on a TLC error or empty output."""
-    out, errors, lock = {}, [], threading.Lock()
-
-    def one(cfg, mode, num):
-        try:
-            r = vlib.tlc(spec, cfg, ctx.scratch, mode=mode, num=num, depth=40, seed=ctx.seed, timeout=900,
-                         out=os.path.join(ctx.scratch, cfg + ".ndjson"), workers=(1 if mode == "simulate" else 2))
-        except vlib.Inconclusive as e:
-            with lock:
-                errors.append(str(e))
-            return
-        with lock:
-            ctx.tlc_runs.append((spec, cfg, r))
-            if r.violation:
-                errors.append("TLC reported an error in %s/%s:\n%s" % (spec, cfg, r.violation[:3000]))
-            elif r.n_behaviours == 0:
-                errors.append("TLC produced no behaviours for %s/%s\n%s" % (spec, cfg, r.out_tail))
-            else:
-                out[cfg] = r
-        vlib.log("TLC %s/%s %s: %d behaviours, %d generated / %d distinct states, %.1fs"
-                 % (spec, cfg, mode, r.n_behaviours, r.generated, r.distinct, r.wall_s))
-
-    threads = [threading.Thread(target=one, args=j) for j in jobs]
-    for i in range(0, len(threads), 4):
-        for t in threads[i:i + 4]:
-            t.start()
-        for t in threads[i:i + 4]:
-            t.join()
-    if errors:
-        raise vlib.Inconclusive("\n".join(errors))
-    return out
-
-
-def sample(path, n, seed):
-    """TLC's simulation prints every successor of the last state of every trace (one
-    behaviour per enabled action instance): keep a seeded sample of n of them."""
-    with open(path) as f:
-        lines = f.readlines()
-    if len(lines) <= n:
-        return path, len(lines)
-    rnd = random.Random(seed * 7919 + len(lines))
-    keep = sorted(rnd.sample(range(len(lines)), n))
-    out = path[:-7] + ".sample.ndjson"
-    with open(out, "w") as f:
-        for i in keep:
-            f.write(lines[i])
-    return out, n
-
-OPS = {"mutex": ["Set", "Clear", "Import", "ClearImport", "ClearRow", "Roaring"],
-       "bool": ["Set", "Clear", "Import", "ClearImport", "ClearRow", "Roaring", "BadRow"]}
 
 
 def run(ctx):
@@ -103,13 +50,13 @@ def run(ctx):
             if m.violation:
                 raise vlib.Inconclusive("design invariant violated in %s:\n%s" % (cfg, m.violation[:2000]))
     sel = [(cfg,) + (t if thorough else q) for cfg, q, t in RUNS if (t if thorough else q)]
-    gen = generate_all(ctx, [(cfg, mode, num) for cfg, mode, num, nsample, nvar in sel])
+    gen = tncommon.generate_all(ctx, [(cfg, mode, num) for cfg, mode, num, nsample, nvar in sel], "Mutex")
     selftest_done = False
     for cfg, mode, num, nsample, nvar in sel:
         r = gen[cfg]
         beh, n = r.behaviours, r.n_behaviours
         if nsample:
-            beh, n = sample(beh, nsample, ctx.seed)
+            beh, n = tncommon.sample(beh, nsample, ctx.seed)
         ctx.notes.append("%s: %d behaviours generated, %d replayed x %d combinations" % (cfg, r.n_behaviours, n, nvar))
         env = {"VERIF_VARIANTS": nvar}
         ctx.drive("bind/topnb", "TestC13", beh=beh, env=env, label="C13/" + cfg, timeout=2400)
@@ -120,7 +67,7 @@ def run(ctx):
             before = len(ctx.failures)
             env2 = dict(env)
             env2["VERIF_CORRUPT"] = 1
-            st, _ = sample(beh, 300, ctx.seed + 1)
+            st, _ = tncommon.sample(beh, 300, ctx.seed + 1)
             res = ctx.drive("bind/topnb", "TestC13", beh=st, env=env2, label="C13/selftest", timeout=600)
             planted = ctx.failures[before:]
             del ctx.failures[before:]
